@@ -543,9 +543,40 @@ func isXMLSanitiser(p *Program, f *ssa.Function) bool {
 			if fromParam {
 				return false
 			}
+			// …and what comes out of the escaper is returned AS IS: a replace / regexp / trim applied
+			// to the escaped text can undo the escaping ("&amp;nbsp;" → "&nbsp;") or cut an entity in two
+			if !escaperOutputAsIs(rv, 0) {
+				return false
+			}
 		}
 	}
 	return true
+}
+
+// escaperOutputAsIs: v is a constant, the content of a buffer/builder (buf.String(), string(buf.Bytes()))
+// or a phi of such values — not the result of any further string operation.
+func escaperOutputAsIs(v ssa.Value, depth int) bool {
+	v = stripConv(v)
+	switch x := v.(type) {
+	case *ssa.Const:
+		return true
+	case *ssa.Phi:
+		if depth > 3 {
+			return false
+		}
+		for _, e := range x.Edges {
+			if !escaperOutputAsIs(e, depth+1) {
+				return false
+			}
+		}
+		return true
+	case *ssa.Call:
+		switch calleeName(x) {
+		case "(*bytes.Buffer).String", "(*strings.Builder).String", "(*bytes.Buffer).Bytes":
+			return true
+		}
+	}
+	return false
 }
 
 func ruleRawXML(r *Run) { rawXML(r, true) }
